@@ -110,3 +110,58 @@ pub fn hash_order_probe() -> String {
     }
     s.into_iter().collect::<Vec<_>>().join("")
 }
+
+
+// ---------------------------------------------------------------------------------------------
+// Seam S7: the clock of simulated threads.
+//
+// The library has no timers of its own, but tree-sitter's query cursor and parser can be given
+// a time budget and read CLOCK_MONOTONIC when they have one.  Defining `clock_gettime` in the
+// harness binary routes every clock read of the process (Rust std, tree-sitter's C code)
+// through here.  A thread may opt in to a *fast-forward* clock: every read advances simulated
+// time by a further seeded jump of up to three seconds — a very slow or heavily loaded machine.
+// Only single-threaded runs opt in (the scheduler's own timeouts need the real clock).
+
+thread_local! {
+    static CLOCK_FAST: Cell<bool> = const { Cell::new(false) };
+    static CLOCK_OFFSET_NS: Cell<u64> = const { Cell::new(0) };
+    static CLOCK_STATE: Cell<u64> = const { Cell::new(0) };
+    static CLOCK_READS: Cell<u64> = const { Cell::new(0) };
+}
+
+#[no_mangle]
+pub unsafe extern "C" fn clock_gettime(clk: libc::clockid_t, ts: *mut libc::timespec) -> libc::c_int {
+    let r = libc::syscall(libc::SYS_clock_gettime, clk, ts) as libc::c_int;
+    if r != 0 || ts.is_null() {
+        return r;
+    }
+    let fast = CLOCK_FAST.try_with(|c| c.get()).unwrap_or(false);
+    if fast && (clk == libc::CLOCK_MONOTONIC || clk == libc::CLOCK_MONOTONIC_RAW) {
+        let mut x = CLOCK_STATE.with(|s| s.get());
+        let jump = splitmix(&mut x) % 3_000_000_000;
+        CLOCK_STATE.with(|s| s.set(x));
+        let off = CLOCK_OFFSET_NS.with(|o| {
+            let v = o.get() + jump;
+            o.set(v);
+            v
+        });
+        CLOCK_READS.with(|c| c.set(c.get() + 1));
+        let total = (*ts).tv_nsec as u64 + off % 1_000_000_000;
+        (*ts).tv_sec += (off / 1_000_000_000) as libc::time_t + (total / 1_000_000_000) as libc::time_t;
+        (*ts).tv_nsec = (total % 1_000_000_000) as libc::c_long;
+    }
+    r
+}
+
+/// Switches the current thread's monotonic clock to fast-forward mode (or back).
+pub fn set_thread_clock_fast(seed: Option<u64>) {
+    CLOCK_FAST.with(|c| c.set(seed.is_some()));
+    CLOCK_STATE.with(|s| s.set(seed.unwrap_or(0)));
+    CLOCK_OFFSET_NS.with(|o| o.set(0));
+    CLOCK_READS.with(|c| c.set(0));
+}
+
+/// Clock reads served in fast-forward mode on this thread.
+pub fn thread_clock_reads() -> u64 {
+    CLOCK_READS.with(|c| c.get())
+}
